@@ -416,14 +416,18 @@ def s7b_jitter_series(ctx, rep, clause="S7"):
     from .common import dom_guard
     f = ctx.P.func("syne_tune.optimizer.schedulers.searchers.bayesopt.gpautograd.custom_op.AddJitterOp")
     cfg = cfg_of(f)
-    asg = [n for n in cfg.nodes if n.kind == "stmt" and isinstance(n.ast, ast.Assign) and U(n.ast.targets[0]) == "jitter"
-           and not (isinstance(n.ast.value, ast.Constant))]
-    if not asg:
-        raise AnchorError("AddJitterOp: updates of `jitter` not found")
     from ..engine import canon_text
+    # the jitter variable, by role: the local that is updated with the growth factor (a parameter of the operator)
+    jv = sorted({U(n.ast.targets[0]) for n in cfg.nodes if n.kind == "stmt" and isinstance(n.ast, ast.Assign) and isinstance(n.ast.targets[0], ast.Name)
+                 and "jitter_growth" in canon_text(f, n.ast.value)})
+    if len(jv) != 1:
+        raise AnchorError("AddJitterOp: the local that is grown by jitter_growth is not identified")
+    jv = jv[0]
+    asg = [n for n in cfg.nodes if n.kind == "stmt" and isinstance(n.ast, ast.Assign) and U(n.ast.targets[0]) == jv
+           and not (isinstance(n.ast.value, ast.Constant))]
     grow = [n for n in asg if "jitter_growth" in canon_text(f, n.ast.value)]
     init = [n for n in asg if "initial_jitter_factor" in canon_text(f, n.ast.value) and n not in grow]
-    zero = lambda a, truth: a[0] == "eq" and a[3] is truth and "jitter" in (a[1], a[2]) and ({a[1], a[2]} & {"0.0", "0"})
+    zero = lambda a, truth: a[0] == "eq" and a[3] is truth and jv in (a[1], a[2]) and ({a[1], a[2]} & {"0.0", "0"})
     ok = bool(grow) and bool(init) and all(any(zero(a, False) for a in dom_guard(ctx, f, n.id)) for n in grow) and \
         all(any(zero(a, True) for a in dom_guard(ctx, f, n.id)) for n in init)
     rep.put(ok, clause, "guarded_by", "AddJitterOp: first retry with the initial jitter, growth factor only from the second failure on", f,
